@@ -46,7 +46,7 @@ def one(task):
 
 if __name__ == '__main__':
     n = int(sys.argv[1]) if len(sys.argv) > 1 else 3
-    keys = [e.key for e in catalogue.entries(ctx='mp', maxcost=2) if e.op.startswith('f:')]
+    keys = [e.key for e in catalogue.entries(ctx='mp', maxcost=3) if e.op.startswith('f:')]
     tasks = [(k, i) for k in keys for i in range(n)]
     with ProcessPoolExecutor(16, mp_context=mp_.get_context('fork')) as ex:
         res = list(ex.map(one, tasks, chunksize=2))
